@@ -193,7 +193,7 @@ def run_case(case, ctx):
         bound = K_EST * est + 1e-10 * abs(gz0)
         err = abs(v - gz0)
         ctx.maximum('residue_err/bound:p=%d' % p, err / bound)
-        ctx.maximum('residue_est/|g|:p=%d:%s:%s' % (p, path, 'default_steps' if not opts else 'user_steps'), est / abs(gz0))
+        ctx.maximum('residue_est/|g|:p=%d:%s:%s' % (p, path, 'default_steps' if not opts else 'user_steps'), est / (abs(gz0) or 1.0))
         if not err <= bound:
             ctx.reject('residue_value', observed=v, expected=gz0, detail=dict(est=est, pole_order=p, order=order),
                        path=path, method=method, pole_order=p)
@@ -293,7 +293,7 @@ def run_case(case, ctx):
             err = math.inf
         ctx.maximum('limit_err/bound:%s' % kernel, err / bound, dict(case=case))
         ctx.maximum('limit_est/|g|:%s:%s' % (path, 'default_steps' if not opts else 'user_steps'),
-                    float(est[k if est.size > 1 else 0]) / abs(gz0), dict(case=case))
+                    float(est[k if est.size > 1 else 0]) / (abs(gz0) or 1.0), dict(case=case))
         if not err <= bound:
             ctx.reject('limit_value', observed=complex(val[k]), expected=gz0,
                        detail=dict(est=float(est[k if est.size > 1 else 0]), bound=bound, kernel=kernel, position=k,
